@@ -101,6 +101,14 @@ impl Driver {
                 panic = Some(p);
             }
         }
+        // a health-check connection that becomes ready between two process_events calls: the next
+        // poll then returns a non-UDP event while a UDP backlog may still be waiting
+        let mut _tcp_keep = Vec::new();
+        if let (Some(hp), true) = (self.cfg.health_check_port, sent.len() > 64) {
+            if let Ok(s) = std::net::TcpStream::connect_timeout(&format!("127.0.0.1:{}", hp).parse().unwrap(), std::time::Duration::from_millis(200)) {
+                _tcp_keep.push(s);
+            }
+        }
         // Quiescence WITHOUT further traffic: keep stepping (each step returns at once while the
         // server reports a backlog, else after its 100 ms poll timeout) until every request that
         // must be answered has been, bounded by what the backlog could legitimately need. Replies
